@@ -13,7 +13,8 @@ package xrep
 //@   immutable: closeQ
 //@   invariant 1 <= ttl && ttl <= 255
 //@   invariant sendQLen >= 0
-//@   elem_invariant recvQ: !shared(elem)
+//@   never_closed: recvQ
+//@   elem_invariant recvQ: elem != nil && !shared(elem)
 //@
 //@ func (*pipe).receiver
 //@   ghost body0 = result.Body at call:RecvMsg#1
@@ -73,3 +74,7 @@ package xrep
 //@
 //@ func (*pipe).receiver
 //@   before go:close#1 assert m == nil || selidx == 2
+//@
+//@ func (*socket).OpenContext
+//@   modifies none
+//@   ensures isnil(result0) && result1 == protocol.ErrProtoOp
